@@ -182,6 +182,9 @@ fn plan_inner(prop: &str, tier: &str) -> Option<Plan> {
                 if matches!(prop, "C04" | "C05" | "C06" | "C07" | "C08" | "C09" | "C10") {
                     let (nmax, sh) = if tier == "quick" { (if matches!(prop, "C06" | "C07" | "C10") { 17 } else { 20 }, 8) } else { (40, 16) };
                     jobs.extend(sharded(prop, "gsweep", f, tier, json!({"n": 0, "max_l": 0, "large": nmax}), sh));
+                    // every small shape behind a corridor / fan of m discovered nodes
+                    let (pm, pl, psh): (Vec<usize>, usize, usize) = if tier == "quick" { (vec![15, 16, 17, 31, 32, 33], 2, 8) } else { (vec![7, 8, 9, 15, 16, 17, 31, 32, 33, 47, 48, 49], 3, 32) };
+                    jobs.extend(sharded(prop, "gsweep", f, tier, json!({"n": 3, "max_l": pl, "prefix": pm}), psh));
                     // high-degree hubs on 4 nodes: every degree 1..=72 (quick) / 1..=120 (thorough)
                     jobs.extend(sharded(prop, "gsweep", f, tier, json!({"n": 0, "max_l": 0, "hubs": if tier == "quick" { 72 } else { 120 }}), if tier == "quick" { 4 } else { 8 }));
                 }
